@@ -539,7 +539,7 @@ func (w *lworld) runHistory(name string, plans [][]lin, universe []lin, final []
 			hist = hist[:120]
 		}
 		_ = info
-		r.Violationf("history-not-linearizable", map[string]interface{}{"history": hist, "name": name, "initial_state": init.key},
+		r.Violationf("history-not-linearizable", map[string]interface{}{"history": hist, "name": name, "initial_state": init.key, "batch": curBatch},
 			"recorded concurrent history %s (%d operations) has no linearization under the sequential model", name, nops)
 	}
 }
@@ -564,8 +564,8 @@ func (w *lworld) partitionedHistory(n int) {
 		}
 		return d, a
 	}
-	d1, _ := mk(true)  // stays authorized
-	d2, a2 := mk(true) // gets a conflicting authorization during the history
+	d1, _ := mk(true)   // stays authorized
+	d2, a2 := mk(true)  // gets a conflicting authorization during the history
 	d3, a3 := mk(false) // gets authorized during the history
 	devs := []*drv.Dev{d1, d2, d3}
 	only := map[uint32]bool{d1.ID: true, d2.ID: true, d3.ID: true}
@@ -731,9 +731,11 @@ func childLin(b run.Batch, r *ev.Result) {
 		}
 		if !w.abort.Load() {
 			w.quiesce("linearizability histories", nil)
+		} else {
+			w.broken = true // an operation may still be pending inside the server: do not reuse the process for further servers
 		}
 		w.shutdown()
-		if r.NumViolations() > 3 {
+		if r.NumViolations() > 3 || abandoned.Load() {
 			return
 		}
 	}
